@@ -4542,10 +4542,13 @@ class ParseCtx:
         elif type_obj.data == "enum_type":
             return OutputStorage(OutputStorageType.ENUM, name, default_value=default_value, enum_values=list(x.value for
                 x in type_obj.children))
-        elif type_obj.data == "str_type":
-            return OutputStorage(OutputStorageType.STR, name, default_value=default_value, str_size=self._convert_int(type_obj.children[0].value))
-        elif type_obj.data == "unterm_str_type":
-            return OutputStorage(OutputStorageType.STR, name, default_value=default_value, str_size=self._convert_int(type_obj.children[0].value), str_null=False)
+        elif type_obj.data in ("str_type", "unterm_str_type"):
+            str_null = type_obj.data == "str_type"
+            str_size = self._convert_int(type_obj.children[0].value)
+            # the size includes the null terminator, if there is one
+            if str_size < (1 if str_null else 0):
+                raise IllegalParseTree("String size is too small" + (" to hold the null terminator" if str_null else ""), type_obj.children[0])
+            return OutputStorage(OutputStorageType.STR, name, default_value=default_value, str_size=str_size, str_null=str_null)
         elif type_obj.data == "raw_type":
             return OutputStorage(OutputStorageType.RAW, name, raw_underlying=type_obj.children[0].value)
         else:
